@@ -89,6 +89,7 @@ func runOnce(t *testing.T, sp spec, s Script) evid.Outcome {
 	if sp.checkK != nil {
 		var k string
 		o.Err, k = sp.checkK(s, tr)
+		o.NoShrink = tr.Spin
 		if o.Err != nil && k != "" && knownListed(sp.id+":"+k) {
 			o.Known = "id=" + k + " " + knownText[k]
 			o.Classes = append(o.Classes, "known-finding:"+k)
@@ -96,6 +97,7 @@ func runOnce(t *testing.T, sp spec, s Script) evid.Outcome {
 		return o
 	}
 	o.Err = sp.check(s, tr)
+	o.NoShrink = tr.Spin
 	return o
 }
 
@@ -345,7 +347,7 @@ func TestC19(t *testing.T) {
 	run(t, spec{
 		id:    "C19",
 		rule:  "priority lab: goroutine dump filtered for goroutines created by the module after termination, reached normally (v2: inputs closed and all released; v1: GracefulStop), by Stop/cancel at arbitrary points, or by a divider fault, plain and simplified (handler goroutines); non-trivial = terminated through Stop/cancel/fault or with items in flight shortly before; distinct = distinct script JSON",
-		opts:  GenOpts{Vers: []int{1, 2}, Simple: []bool{false, true}, Dividers: libDiv, StopOps: true, Fault: true, NoZero: true},
+		opts:  GenOpts{Vers: []int{1, 2}, Simple: []bool{false, true}, Dividers: libDiv, StopOps: true, StopHalf: true, Fault: true, NoZero: true},
 		leak:  true,
 		check: CheckC19,
 		skip:  rejected,
@@ -359,7 +361,7 @@ func TestC20(t *testing.T) {
 	run(t, spec{
 		id:    "C20",
 		rule:  "priority lab under -race: producers, handler/release helpers, control calls (AddInput, RemoveInput, GracefulStop, Stop) and the discipline goroutine; non-trivial = at least H deliveries",
-		opts:  GenOpts{Vers: []int{1, 2}, Simple: []bool{false, true}, Dividers: libDiv, StopOps: true, AddRemove: true, NoZero: true},
+		opts:  GenOpts{Vers: []int{1, 2}, Simple: []bool{false, true}, Dividers: libDiv, StopOps: true, StopHalf: true, AddRemove: true, NoZero: true},
 		check: func(Script, Trace) error { return nil },
 		nontriv: func(s Script, tr Trace) bool {
 			return uint(len(tr.Deliveries)) >= s.H
